@@ -1,5 +1,7 @@
 import DriverLib.Util
 import PytmeModel.Model.C02
+import PytmeModel.Model.C02Run
+import PytmeModel.Model.C01
 import PytmeModel.Extracted.C02
 open Lean Drv Pm Pm.C02
 namespace Drv.C02
@@ -11,12 +13,68 @@ def jOp : Op → Json
   | .read rs => Json.arr #[jStr "read", jNats rs]
   | .out b => Json.arr #[jStr "out", jNat b]
 
+def jSlice (l : List (Nat × Nat)) : Json := jList (l.map (fun s => jNats [s.1, s.2]))
+
+def jJob (J : Job Nat) : Json := Json.mkObj [
+  ("index", jNat J.index), ("gpuIndex", jNat J.gpuIndex), ("targetSlice", jSlice J.targetSlice),
+  ("templateSlice", jSlice J.templateSlice), ("pad", jNats J.pad), ("offset", jNats J.offset),
+  ("valid", jBool J.valid), ("targetShape", jNats J.targetShape), ("templateShape", jNats J.templateShape),
+  ("outShape", jNats J.outShape), ("nJobs", jNat J.nJobs), ("threadSafe", jBool J.threadSafe),
+  ("chunks", jNatss J.chunks)]
+
+def jTable (t : Pm.C04.Table String) : Json :=
+  jList (t.map (fun kv => jList [jStr kv.1, jNat kv.2]))
+
+def jStore (s : Pm.C04.Store String) : Json :=
+  Json.mkObj [("shape", jNats s.scores.shape), ("offset", jNats s.offset), ("scores", jInts s.scores.toList),
+              ("rots", jInts s.rots.toList), ("table", jTable s.table)]
+
+/-- score arrays given job by job (creation order), rotation by rotation: looked up by the job's slices -/
+def tableScore (jobs : List (Job Nat)) (data : List (List (List Int))) : ScoreFn Nat String :=
+  fun t m r =>
+    match (jobs.zip data).find? (fun jd => jd.1.targetSlice == t && jd.1.templateSlice == m) with
+    | some (J, d) => (⟨J.outShape, (d.getD r []).toArray⟩, toString r)
+    | none => (⟨[], #[]⟩, toString r)
+
 def handle (op : String) (a : Json) : Option R :=
   match op with
   | "c02.splitRotations" => some do
       let n ← getNat a "n"; let j ← getNat a "nJobs"
       if j == 0 then throw "ZeroDivision"
       pure (jNatss (splitRotations (List.range n) j))
+  | "c02.enumJobs" => some do
+      let tgt ← getNatList a "target"; let tmpl ← getNatList a "template"
+      let ts ← getNatList a "targetSplits"; let ms ← getNatList a "templateSplits"
+      let outer ← getNat a "outer"; let inner ← getNat a "inner"; let n ← getNat a "nRot"
+      let pe ← getBool a "padEdges"
+      if inner == 0 || outer == 0 then throw "ZeroDivision"
+      if tgt.length != tmpl.length || ts.length != tgt.length || ms.length != tmpl.length then throw "rank"
+      let jobs := enumJobs tgt tmpl ts ms outer inner (List.range n) pe
+      -- `fourier_padding` of every job's subset (C01's model of `_fourier_padding`): what `scan` tells its analyzers
+      let pf := match getBool a "padFourier" with | .ok b => b | .error _ => true
+      pure (Json.mkObj [("jobs", jList (jobs.map jJob)),
+        ("convShape", jNatss (jobs.map (fun J => List.zipWith (fun n m => Pm.C01.convLen n m pf) J.targetShape J.templateShape))),
+        ("fourierShift", jIntss (jobs.map (fun J => List.zipWith (fun n m => Pm.C01.fourierShiftFull n m pf) J.targetShape J.templateShape))),
+        ("mergePlan", jList ((mergePlan jobs).map (fun l => jList (l.map (fun p => jNats [p.1, p.2]))))),
+        ("cores", jList ((jobs.map Job.core).map (fun c => Json.mkObj [("targetSlice", jSlice c.targetSlice),
+            ("templateSlice", jSlice c.templateSlice), ("offset", jNats c.offset), ("outShape", jNats c.outShape),
+            ("rots", jNats c.rots)])))])
+  | "c02.scanSubsets" => some do
+      let tgt ← getNatList a "target"; let tmpl ← getNatList a "template"
+      let ts ← getNatList a "targetSplits"; let ms ← getNatList a "templateSplits"
+      let outer ← getNat a "outer"; let inner ← getNat a "inner"
+      let rots ← getNatList a "rots"
+      let pe ← getBool a "padEdges"; let thr ← getInt a "thr"
+      if inner == 0 || outer == 0 then throw "ZeroDivision"
+      if tgt.length != tmpl.length || ts.length != tgt.length || ms.length != tmpl.length then throw "rank"
+      let data ← (← getArr a "scores").toList.mapM (fun j => do
+        (← j.getArr?).toList.mapM (fun r => do intList (← r.getArr?)))
+      let jobs := enumJobs tgt tmpl ts ms outer inner rots pe
+      if data.length != jobs.length then throw "BadArg:scores"
+      if (jobs.zip data).any (fun jd => jd.2.any (fun d => d.length != prodL jd.1.outShape)) then throw "BadArg:shape"
+      match scanSubsetsRun thr (tableScore jobs data) jobs with
+      | some m => pure (jStore m)
+      | none => pure (Json.str "none")
   | "c02.loops" => some do
       pure (Json.mkObj [
         ("corr", Json.mkObj [("inputs", jNats corrInputs), ("ops", jList (corrLoop.map jOp)), ("ok", jBool (defBeforeUse corrInputs corrInputs corrLoop))]),
